@@ -194,7 +194,8 @@ func C17() int {
 						c.Violation("temp-file-left-after-error|library|"+cs.fault, fmt.Sprintf("%s: DownloadClusterLogs returned an error (%v) but %d file(s) remain in the temporary directory: %v", label, trunc(fmt.Sprint(derr), 120), len(after), after), rp)
 					}
 				} else if len(after) != len(files) {
-					// success: exactly the returned files may exist, they are the caller's to delete
+					// success: exactly the returned files may exist (wherever below the temporary directory the
+					// tool keeps them), they are the caller's to delete
 					c.Violation("unregistered-temp-file|library", fmt.Sprintf("%s: %d files returned but %d entries in the temporary directory: %v", label, len(files), len(after), after), rp)
 				}
 				if len(afterDel) != 0 {
